@@ -245,6 +245,7 @@ func (a *Agents) Raw(label string, bid, fi int, path, mode string) *CheckRec {
 // then skipped: plans stay valid under shrinking).
 func (a *Agents) Exec(op *Op) bool {
 	w := a.w
+	a.route(op)
 	switch op.Kind {
 	case "nav":
 		a.Nav("nav", op.B, op.F, op.Path, 6)
@@ -303,6 +304,42 @@ func (a *Agents) Exec(op *Op) bool {
 		return false
 	}
 	return true
+}
+
+// route selects the replica that serves the requests of op (R = 0: the primary).
+func (a *Agents) route(op *Op) {
+	w := a.w
+	if len(w.Reps) < 2 {
+		return
+	}
+	if t := w.Sim.Cur(); t != nil {
+		if op.R > 0 && op.R < len(w.Reps) {
+			w.taskRep[t.ID] = w.Reps[op.R]
+		} else {
+			delete(w.taskRep, t.ID)
+		}
+	}
+}
+
+// sprayReplicas turns a single-filter plan over a Redis store into a deployment of several replicas behind a
+// load balancer without stickiness: every op that sends requests is served by a replica drawn from the seed.
+func sprayReplicas(r *Rng, p *Plan, chance float64) {
+	if p.Spec == nil || len(p.Spec.Filters) != 1 || !isRedisKind(p.Spec.Filters[0].Store) || p.Spec.HandlerMode || !r.Chance(chance) {
+		return
+	}
+	p.Spec.Replicas = 2 + r.Intn(2)
+	var walk func(ops []Op)
+	walk = func(ops []Op) {
+		for i := range ops {
+			switch ops[i].Kind {
+			case "nav", "send", "begin", "finish", "finish-held", "logout", "cb":
+				ops[i].R = r.Intn(p.Spec.Replicas)
+			case "par":
+				walk(ops[i].Par)
+			}
+		}
+	}
+	walk(p.Ops)
 }
 
 // Par runs ops concurrently, one task each, interleaved by the seeded scheduler.
